@@ -485,8 +485,12 @@ type ScenarioResult struct {
 
 func scenarios() []Scenario {
 	var out []Scenario
-	for _, o := range []int{-1, 10, 37, 9000} {
-		for _, n := range []int{1, 37, 5000} {
+	olds, news := []int{-1, 10, 37, 9000}, []int{1, 37, 5000}
+	if os.Getenv("VERIF_TIER") == "thorough" {
+		olds, news = []int{-1, 0, 1, 10, 37, 4095, 4096, 4097, 9000, 70000}, []int{0, 1, 37, 4095, 4096, 4097, 5000, 70000}
+	}
+	for _, o := range olds {
+		for _, n := range news {
 			out = append(out, Scenario{Name: fmt.Sprintf("set old=%d new=%d", o, n), Kind: "set", OldLen: o, NewLen: n})
 		}
 	}
